@@ -70,6 +70,7 @@ def _codec(run, repo, world, folder, rx):
     total = 0
     classes_seen = {}
     leaf_objs = {}
+    str_skipped = [0]
     modes = [(16, "nomap"), (24, "nomap"), (24, "none"), (24, "type")]
     for (width, mm) in modes:
         I, res = decode_all(world, rx, folder, width, mm)
@@ -110,6 +111,26 @@ def _codec(run, repo, world, folder, rx):
                            o.cls.name, [(e[0], _ls(e[1])) for e in errs[:6]],
                            cube_str(st)),
                        where(repo.mod(o.cls.mod), o.cls.node))
+            # the textual form of what was decoded exists: str() of the
+            # object does not raise for any frame of the leaf
+            if mm == "nomap":
+                rs = o.cls.lookup("__str__")
+                if rs is not None and rs[1] not in ("attr", "class"):
+                    try:
+                        outs = list(I.call_fn(rs[2], rs[0], [], {},
+                                              st.fork(), self_=v,
+                                              kind="inst"))
+                    except (Unsupported, AnalysisError):
+                        outs = []
+                        str_skipped[0] += 1
+                    for (sv, s2) in outs:
+                        if isinstance(sv, Raise):
+                            run.ob("R-STR-WIDTH", "%s#%s#str-raises" % (
+                                key, o.cls.qname), False,
+                                "str() of the decoded %s raises `%s` for "
+                                "frames with %s" % (o.cls.name, sv.exc,
+                                                    cube_str(s2)),
+                                where(repo.mod(o.cls.mod), o.cls.node))
             classes_seen[o.cls] = classes_seen.get(o.cls, 0) + 1
             shape = (o.cls, frozenset(o.f))
             if shape not in leaf_objs:
@@ -125,6 +146,8 @@ def _codec(run, repo, world, folder, rx):
                        "example": _example(res)})
         run.count(len(res))
         run.analysed["leaf cases %s" % key] = len(res)
+    run.analysed["leaf cases whose __str__ is outside the interpreter"] = \
+        str_skipped[0]
     run.floor("decode leaf cases", total, 8000)
     run.floor("distinct decoded classes", len(classes_seen), 300)
     # other widths: the generic fallback
